@@ -3,6 +3,7 @@ package gen
 
 import (
 	"pgregory.net/rapid"
+	"strings"
 
 	"verif/harness/ref"
 )
@@ -85,7 +86,19 @@ func drawRe(t *rapid.T, alphabet []rune, depth int) *ref.Re {
 		}
 	}
 	leaf := func() *ref.Re {
-		switch rapid.IntRange(0, 5).Draw(t, "leaf") {
+		switch rapid.IntRange(0, 6).Draw(t, "leaf") {
+		case 6:
+			// syntax whose only special character is the backslash: a Perl class, or an escaped punctuation character
+			var punct []rune
+			for _, c := range alphabet {
+				if strings.ContainsRune("-/ !\"',=~`", c) {
+					punct = append(punct, c)
+				}
+			}
+			if len(punct) > 0 && rapid.Bool().Draw(t, "escPunct") {
+				return &ref.Re{Op: "esc", Lit: string(rapid.SampledFrom(punct).Draw(t, "escR"))}
+			}
+			return &ref.Re{Op: "perl", Lit: rapid.SampledFrom([]string{"w", "w", "d", "s", "W", "D", "S"}).Draw(t, "perl")}
 		case 0:
 			return &ref.Re{Op: "any"}
 		case 1:
@@ -138,7 +151,7 @@ func drawRe(t *rapid.T, alphabet []rune, depth int) *ref.Re {
 var uniAlphabet = []rune{'x', 'y', 'z'}
 
 // HostileAlphabet is used where values may be arbitrary text.
-var HostileAlphabet = []rune{'a', 'b', 'x', '"', '\\', '\n', ' ', '{', '}', ',', '=', '~', '!', '\'', '`', '.', '*', '世', 'é', '\t', '|', '(', ')', '[', ']', '$', '^', '+', '?', '-', 'n', '\uFFFD'} // U+FFFD: a valid code point that decoders also use as their error value
+var HostileAlphabet = []rune{'a', 'b', 'x', '"', '\\', '\n', ' ', '{', '}', ',', '=', '~', '!', '\'', '`', '.', '*', '世', 'é', '\t', '|', '(', ')', '[', ']', '$', '^', '+', '?', '-', 'n', '\uFFFD', '\r'} // U+FFFD: a valid code point that decoders also use as their error value
 
 var Ops = []string{"=", "!=", "=~", "!~"}
 
